@@ -832,9 +832,10 @@ asn1c_lang_C_type_SEx_OF(arg_t *arg) {
 						expr, "Member", 0));
 				assert(tmp_memb->Identifier);
 			}
-			tmp.default_cb(&tmp, NULL);
+			int memb_ret = tmp.default_cb(&tmp, NULL);
 			tmp_memb->marker.flags = flags;
 		arg->embed--;
+		if(memb_ret) return -1;	/* Element type failed */
 		assert(arg->target->target == OT_TYPE_DECLS ||
 				arg->target->target == OT_FWD_DEFS);
 	} else {
